@@ -123,6 +123,8 @@ type harnessRun struct {
 	unknown     int
 	solverMs    int64
 	maxQueryMs  int64
+	modelHits   int
+	fallbacks   int
 	reached     map[string]int
 	findings    []exec.Finding
 	unsupported map[string]int
@@ -221,9 +223,11 @@ func explore(pkg string, runs []*harnessRun, logf func(string, ...interface{})) 
 				for _, x := range runs {
 					queued += len(x.queue)
 				}
-				chunk := 150
-				if queued < 3*nw {
-					chunk = 12
+				chunk := 100
+				if queued < nw {
+					chunk = 2 // starving: return the alternatives quickly so that other workers get prefixes
+				} else if queued < 4*nw {
+					chunk = 10
 				}
 				if r.started.IsZero() {
 					r.started = time.Now()
@@ -284,6 +288,8 @@ func (r *harnessRun) absorb(res exec.JobResult) {
 	r.unsat += res.Unsat
 	r.unknown += res.Unknown
 	r.solverMs += res.SolverMs
+	r.modelHits += res.ModelHits
+	r.fallbacks += res.Fallbacks
 	if res.MaxQueryMs > r.maxQueryMs {
 		r.maxQueryMs = res.MaxQueryMs
 	}
